@@ -309,7 +309,7 @@ class ConformationContainer:
         self,
         groups: Iterable[Group],
         get_coupled_groups: CallableGroupToGroups,
-    ) -> Iterator[Set[Group]]:
+    ) -> Iterator[List[Group]]:
         """A generator that yields covalently coupled systems.
 
         Args:
@@ -318,15 +318,19 @@ class ConformationContainer:
         Yields:
             covalently coupled systems
         """
-        groups = set(groups)
+        # Groups hash by object identity, so the iteration order of a set of
+        # groups depends on memory addresses.  Keep the order of self.groups
+        # instead, so that ties (e.g. equal pKa values in coupling_effects)
+        # are always resolved the same way.
+        groups = list(groups)
         while len(groups) > 0:
             # extract a system of coupled groups ...
             system: Set[Group] = set()
             self.get_a_coupled_system_of_groups(
-                groups.pop(), system, get_coupled_groups)
+                groups[0], system, get_coupled_groups)
             # ... and remove them from the list
-            groups -= system
-            yield system
+            groups = [group for group in groups if group not in system]
+            yield sorted(system, key=self.groups.index)
 
     def get_a_coupled_system_of_groups(self, new_group: Group,
                                        coupled_groups: Set[Group],
